@@ -18,8 +18,8 @@ type Box struct {
 	m map[string]int
 }
 
-func setX(t *T)          { t.x = 2 }
-func readOnly(t *T) int  { return t.y }
+func setX(t *T)             { t.x = 2 }
+func readOnly(t *T) int     { return t.y }
 func keep(m map[string]int) {}
 
 var stash map[string]int
@@ -124,10 +124,10 @@ func TwoResults(x int) (int, bool) {
 	return 0, false
 }
 
-func fill(t *T)        { t.x = 5 }
-func inc(p *int)       { *p = *p + 1 }
-func reset(t *T)       { *t = T{} }
-func nothing()         {}
+func fill(t *T)  { t.x = 5 }
+func inc(p *int) { *p = *p + 1 }
+func reset(t *T) { *t = T{} }
+func nothing()   {}
 
 // BorrowedDuringCall: t2 is lent to fill (contract: borrows t): that call may change it ...
 func BorrowedDuringCall() int {
@@ -208,10 +208,10 @@ func bumpSink() {
 		itemSink[0].D = 7
 	}
 }
-func sortSink()        { sort.Slice(itemSink, func(i, j int) bool { return itemSink[i].D < itemSink[j].D }) }
+func sortSink()            { sort.Slice(itemSink, func(i, j int) bool { return itemSink[i].D < itemSink[j].D }) }
 func pointIntoSink() *Item { return &itemSink[0] }
-func viaPointer()      { p := pointIntoSink(); p.D = 9 }
-func countOnly(n int) int { return n + 1 }
+func viaPointer()          { p := pointIntoSink(); p.D = 9 }
+func countOnly(n int) int  { return n + 1 }
 
 // ItemsKeptAcrossCounting: the callee contains nothing that writes an Item: xs[0].D is unchanged.
 func ItemsKeptAcrossCounting(xs []Item) int {
@@ -337,4 +337,71 @@ func (h *Holder) ReadsAfterBump() int {
 func (h *Holder) QuotaByForeignAddress(s string) int {
 	_, _ = fmt.Sscan(s, &h.quota)
 	return h.quota
+}
+
+// --- loops whose body makes calls without a frame: what survives to the loop head ---
+
+type Req struct {
+	Items []int
+	N     int
+}
+
+var stashReq *Req
+
+func opaque(n int) int { return n + 1 } // no contract: havoc
+
+var hookFn = func(n int) int { return n } // called dynamically: the callee is unknown
+func keepReq(r *Req)                      { stashReq = r }  // retains its argument
+func bumpReq(r *Req)                      { r.Items = nil } // writes the field
+
+// RangePrivate: r never leaves the function; the calls in the body cannot shrink r.Items.
+func RangePrivate(n int) int {
+	r := &Req{Items: make([]int, 3)}
+	s := 0
+	for i := range r.Items {
+		s += hookFn(r.Items[i])
+	}
+	return s
+}
+
+// RangeEscaped: r was handed out before the loop; a call in the body may shrink r.Items.
+func RangeEscaped(n int) int {
+	r := &Req{Items: make([]int, 3)}
+	keepReq(r)
+	s := 0
+	for i := range r.Items {
+		s += hookFn(r.Items[i])
+	}
+	return s
+}
+
+// RangeLent: r is passed to a callee inside the loop.
+func RangeLent(n int) int {
+	r := &Req{Items: make([]int, 3)}
+	s := 0
+	for i := range r.Items {
+		bumpReq(r)
+		s += r.Items[i]
+	}
+	return s
+}
+
+// RangeStored: the body itself replaces the slice.
+func RangeStored(n int) int {
+	r := &Req{Items: make([]int, 3)}
+	s := 0
+	for i := range r.Items {
+		s += r.Items[i]
+		r.Items = r.Items[:0]
+	}
+	return s
+}
+
+// RangeValue: plain range with a value and an opaque call: index is in range by construction.
+func RangeValue(xs []int) int {
+	s := 0
+	for i, x := range xs {
+		s += opaque(x) + xs[i]
+	}
+	return s
 }
